@@ -3,13 +3,13 @@
 # /repo itself is never touched and background sweeps are not disturbed. Evidence of the property is NOT overwritten.
 set -u
 P="$1"; ID="$2"; TIER="${3:-quick}"; WT="/tmp/st_${ID}_$$"
-git -C /repo worktree add -q --detach "$WT" HEAD || exit 2
+flock /tmp/.wt.lock git -C /repo worktree add -q --detach "$WT" HEAD || exit 2
 git -C "$WT" apply "$P" || { echo "PATCH DOES NOT APPLY"; git -C /repo worktree remove --force "$WT"; exit 3; }
 cd /verif
 cp evidence/$ID.json /tmp/ev_keep_${ID}_$$.json 2>/dev/null
 VERIF_REPO="$WT" ./run "$ID" "$TIER" > /tmp/seedtest_${ID}_$$.log 2>&1; rc=$?
 cp /tmp/ev_keep_${ID}_$$.json evidence/$ID.json 2>/dev/null; rm -f /tmp/ev_keep_${ID}_$$.json
-git -C /repo worktree remove --force "$WT"
+flock /tmp/.wt.lock git -C /repo worktree remove --force "$WT"
 echo "rc=$rc $(grep -c '^VIOLATION' /tmp/seedtest_${ID}_$$.log) VIOLATION lines; $(grep -m1 -A1 '^VIOLATION' /tmp/seedtest_${ID}_$$.log | tail -1 | cut -c1-300)"
 tail -1 /tmp/seedtest_${ID}_$$.log | cut -c1-200
 rm -f /tmp/seedtest_${ID}_$$.log
